@@ -99,6 +99,8 @@ def _run_jobs(jobs, nproc, tier):
 
 
 def main(argv=None):
+    if hasattr(sys, 'set_int_max_str_digits'):
+        sys.set_int_max_str_digits(0)      # counterexample models can carry rationals with thousands of digits
     ap = argparse.ArgumentParser()
     ap.add_argument('prop')
     ap.add_argument('--tier', default=os.environ.get('VERIF_TIER', 'quick'))
@@ -263,8 +265,9 @@ def main(argv=None):
         'wall_s': round(wall, 2),
         'violations': len(seen_v),
     }
-    os.makedirs(os.path.join(VERIF, 'evidence'), exist_ok=True)
-    with open(os.path.join(VERIF, 'evidence', prop + '.json'), 'w') as f:
+    evdir = os.environ.get('SYMX_EVIDENCE_DIR') or os.path.join(VERIF, 'evidence')     # seed trials against a scratch worktree write elsewhere
+    os.makedirs(evdir, exist_ok=True)
+    with open(os.path.join(evdir, prop + '.json'), 'w') as f:
         json.dump(evidence, f, indent=1, default=str)
 
     for ln in out_lines:
